@@ -69,6 +69,21 @@ type fieldVerdict struct {
 	Deviants  []Access
 }
 
+var guardMemo = map[*Lockset]map[string]string{}
+
+// guardOfField is the inferred guard (lock name relative to the object) of a field.
+func guardOfField(ls *Lockset, key string) string {
+	m := guardMemo[ls]
+	if m == nil {
+		m = map[string]string{}
+		for _, v := range guardTable(ls) {
+			m[v.Key] = v.Guard
+		}
+		guardMemo[ls] = m
+	}
+	return m[key]
+}
+
 // guardTable infers, for every field, the lock guarding it and the deviating accesses.
 func guardTable(ls *Lockset) []fieldVerdict {
 	var res []fieldVerdict
